@@ -24,12 +24,13 @@ def main():
             "level_claimed": {
                 "category": P.get("level", "proof"),
                 "text": P.get("level_text", "Coq theorems (all inputs/histories, no bound) about an executable Gallina model of the code, "
-                              "tied to /repo on every run by a correspondence check that runs the real Go code and the model on the same generated "
-                              "inputs and evaluates the theorem's spec predicate on the implementation's own traces."),
-                "design_ref": "DESIGN.md section 4, %s" % pid,
+                              "tied to /repo on every run in two ways: source-tie theorems re-checked against a Gallina translation of the Go source that is "
+                              "regenerated from /repo on every run (for the files the translator covers), and a correspondence check that runs the real Go code, "
+                              "the model and the translated source on the same generated inputs and evaluates the theorem's spec predicate on the implementation's own traces."),
+                "design_ref": "DESIGN.md sections 4 (%s) and 11" % pid,
             },
             "level_note": P.get("level_note", "; ".join(P["trusted_base"])),
-            "technique": P.get("technique", "machine-checked proof in Coq 8.16 (invariants/refinement on a hand-written executable model) + model/implementation correspondence by differential execution"),
+            "technique": P.get("technique", "machine-checked proof in Coq 8.16 (invariants/refinement on an executable model; source-tie theorems against a Gallina translation of the Go source regenerated on every run) + model/implementation correspondence by differential execution"),
         })
     na = [{"property_id": pid, "reason": "check not built yet in this round (planned: see DESIGN.md section 4); no claim made"}
           for pid in ALL if pid not in PROPS]
